@@ -997,7 +997,7 @@ func c10Plan(b *c10Base, rng *rand.Rand, thorough bool) []c10Trial {
 	// mutated streams
 	for _, m := range c10Mutations(b, rng, thorough) {
 		m.Chunks = c10Chunks(rng, n)
-		if strings.HasPrefix(m.Mut, "hdr:") || !b.real || thorough {
+		if strings.HasPrefix(m.Mut, "hdr:") || b.name == "tiny-db" || thorough {
 			both(m)
 			if m.Mut == "hdr:inc-payload" {
 				m.Kind, m.FN = "sink", true
